@@ -6,6 +6,7 @@ import Pandora.Spec.C18Sess
 import Pandora.Model.C18Hook
 import Pandora.Spec.C18Valid
 import Pandora.Model.C18Nest
+import Pandora.Model.C18Over
 
 namespace Pandora.Drv.C18
 open Pandora.Drv Pandora.Model.C18 Pandora.Spec.C18
@@ -29,8 +30,68 @@ def parseCfg (s : String) : Option Cfg :=
     | [], _ => some []
     | t :: ts, i => do
       let rest ← go ts (i + 1)
-      if t == "_" then pure rest else pure ((i, ← t.toInt?) :: rest)
+      if t == "_" || t == "~" then pure rest else pure ((i, ← t.toInt?) :: rest)
   go (s.splitOn "/") 1
+
+/-! ### round 4: structured options (`ext=1`, Model/C18Over) -/
+namespace Over
+open Pandora.Model.C18Over
+
+def parseOptInt (t : String) : Option (Opt Int) :=
+  if t == "_" || t == "" then some .absent else if t == "~" then some .null else t.toInt?.map .val
+
+/-- "7,~,3" -/
+def parseElems (s : String) : Option (List (Option Int)) :=
+  if s == "e" then some [] else
+  (splitList s).mapM fun t => if t == "~" then some none else t.toInt?.map some
+
+/-- "k1:9,k3:4" -/
+def parseEntries (s : String) : Option (List (Nat × Int)) :=
+  if s == "e" then some [] else
+  (splitList s).mapM fun t =>
+    match t.splitOn ":" with
+    | [k, v] => do pure ((← (k.drop 1).toString.toNat?), (← v.toInt?))
+    | _ => none
+
+def parseOptWith {α : Type} (f : String → Option α) (t : String) : Option (Opt α) :=
+  if t == "_" || t == "" then some .absent else if t == "~" then some .null else (f t).map .val
+
+def parsePtrSet (s : String) : Option (Option Int × Option Int) :=
+  if s == "e" then some (none, none) else do
+  let es ← (splitList s).mapM fun t =>
+    match t.splitOn ":" with
+    | [k, v] => do pure (k, ← v.toInt?)
+    | _ => none
+  pure ((es.find? (·.1 == "x")).map (·.2), (es.find? (·.1 == "y")).map (·.2))
+
+/-- the registered defaults: d=A/B/C dm= dl= dr= dp= -/
+def parseOCfg (kv : List (String × String)) : Option OCfg := do
+  let abc ← ((getS kv "d").splitOn "/").mapM String.toInt?
+  let m ← (if getS kv "dm" "-" == "-" then some none else (parseEntries (getS kv "dm")).map some)
+  let l ← (if getS kv "dl" "-" == "-" then some none else ((splitList (getS kv "dl")).mapM String.toInt?).map some)
+  let r ← (splitList (getS kv "dr" "0,0,0")).mapM String.toInt?
+  let p ← (if getS kv "dp" "-" == "-" then some none else
+    match (getS kv "dp").splitOn ":" with
+    | [x, y] => do pure (some (⟨← x.toInt?, ← y.toInt?⟩ : Inner))
+    | _ => none)
+  match abc, r with
+  | [a, b, c], [r0, r1, r2] => pure ⟨a, b, c, m, l, r0, r1, r2, p⟩
+  | _, _ => none
+
+/-- the user's settings: `A/B/C` and the four structured ones -/
+def parseOSet (abc um ul ur up : String) : Option OSet := do
+  match (abc.splitOn "/").mapM parseOptInt with
+  | some [a, b, c] =>
+    pure ⟨a, b, c, ← parseOptWith parseEntries um, ← parseOptWith parseElems ul, ← parseOptWith parseElems ur,
+          ← parseOptWith parsePtrSet up⟩
+  | _ => none
+
+def isExt (kv : List (String × String)) : Bool := getS kv "ext" == "1"
+
+/-- the fields printed after Mark/A/B/C -/
+def shown (kv : List (String × String)) : List Nat := if isExt kv then extFields else []
+
+end Over
 
 /-- the validation rule of the instrumented config type on the hook / engine path: field 3 (`Conf.C`) ≥ vmin -/
 def ruleOf (kv : List (String × String)) : Rule := ⟨3, ((getN? kv "vmin").getD 0 : Nat)⟩
@@ -39,8 +100,13 @@ def parseInput (s : String) : Option Input := do
   let kv := parseKV s
   let sh ← parseShape (getS kv "sh")
   let form ← parseForm (getS kv "form")
-  let d ← parseCfg (getS kv "d")
-  let u ← parseCfg (getS kv "u")
+  -- ext=1: the configuration has structured options; defaults and settings are their flattenings (Model/C18Over)
+  let d ← (if Over.isExt kv then (Over.parseOCfg kv).map (Pandora.Model.C18Over.flat Pandora.Model.C18Over.allFields)
+           else parseCfg (getS kv "d"))
+  let u ← (if Over.isExt kv then
+             (Over.parseOSet (getS kv "u") (getS kv "um") (getS kv "ul") (getS kv "ur") (getS kv "up")).map
+               (Pandora.Model.C18Over.flatSet Pandora.Model.C18Over.allFields)
+           else parseCfg (getS kv "u"))
   let k ← getN? kv "k"
   let ff ← parseNats (getS kv "ff")
   let cf ← parseNats (getS kv "cf")
@@ -72,16 +138,19 @@ def showEv (sh : Shape) : Ev → String
 def showErr : Err → String
   | .fill i => s!"fill{i}" | .ctor i => s!"ctor{i}" | .fact i => s!"fact{i}"
 
-def showRes : Res → String
+/-- `xf`: the fields printed after Mark/A/B/C (the structured options of an ext case) -/
+def showRes (r : Res) (xf : List Nat := []) : String :=
+  match r with
   | .made => "made"
-  | .ok p => s!"ok.{p.serial}.{match p.cell with | some c => toString c | none => "-"}.{p.seen.get 0}/{p.seen.get 1}/{p.seen.get 2}/{p.seen.get 3}"
+  | .ok p => s!"ok.{p.serial}.{match p.cell with | some c => toString c | none => "-"}.{"/".intercalate (([0, 1, 2, 3] ++ xf).map fun f => toString (p.seen.get f))}"
   | .err e => s!"err.{showErr e}"
   | .panic e => s!"panic.{showErr e}"
 
-def showObs (sh : Shape) : Option Obs → String
+def showObs (sh : Shape) (o : Option Obs) (xf : List Nat := []) : String :=
+  match o with
   | none => "regpanic"
   | some o =>
-    let steps := o.steps.map fun s => "|".intercalate (s.evs.map (showEv sh)) ++ ">" ++ showRes s.res
+    let steps := o.steps.map fun s => "|".intercalate (s.evs.map (showEv sh)) ++ ">" ++ showRes s.res xf
     let views := o.views.map fun v => s!"{v.1}:{v.2}"
     s!"steps={";".intercalate steps} views={",".intercalate views}"
 
@@ -120,7 +189,11 @@ def parseRes (s : String) : Option Res :=
       | [m, a, b, c] =>
         -- zero-valued fields are bound explicitly; `Cfg.get` cannot tell the difference
         pure (.ok ⟨← serial.toNat?, cell.toNat?, [(0, m), (1, a), (2, b), (3, c)]⟩)
-      | _ => none
+      | _ =>
+        -- an ext case: Mark/A/B/C and the flattened structured options
+        if vals.length == 4 + Pandora.Model.C18Over.extFields.length then
+          pure (.ok ⟨← serial.toNat?, cell.toNat?, ([0, 1, 2, 3] ++ Pandora.Model.C18Over.extFields).zip vals⟩)
+        else none
   | ["err", e] => (parseErr e).map .err
   | ["panic", e] => (parseErr e).map .panic
   | _ => none
@@ -151,10 +224,11 @@ def eraseFills (o : Obs) : Obs :=
 /-- the Spec on an observation without fill events: errors and configuration in full (the user's settings ARE
 applied), the per-call structure (default-config / constructor / factory invocations, identities, views) as for a
 run without fillConf -/
-def judgeHook (inp : Input) (obs : Option Obs) (bad : Bool) (skipConfig : Bool := false) (rule : Rule := ⟨3, 0⟩) : String :=
+def judgeHook (inp : Input) (obs : Option Obs) (bad : Bool) (skipConfig : Bool := false) (rule : Rule := ⟨3, 0⟩)
+    (fs : List Nat := fields) : String :=
   let noFill : Input := { inp with w := { inp.w with hasFill := false } }
   match obs with
-  | none => judge inp obs fields
+  | none => judge inp obs fs
   | some o =>
     -- a failed decode is visible only as the operation's result: put the failing invocation back for `errorsOk`
     let restored : Obs := { o with steps := o.steps.map fun s =>
@@ -169,7 +243,7 @@ def judgeHook (inp : Input) (obs : Option Obs) (bad : Bool) (skipConfig : Bool :
       "fail:errors:the configuration (defaults overlaid by the user's settings) fails validation, but an operation that needs it did not end with the config error"
     else if !bad && !validAcceptedOk rule inp o then "fail:errors:a valid configuration was refused with a config error"
     else if !errorsOk inp restored then "fail:errors:error not delivered as the error result / panic rule"
-    else if !skipConfig && !configOk inp o fields then "fail:config:product config is not defaults overlaid by user settings"
+    else if !skipConfig && !configOk inp o fs then "fail:config:product config is not defaults overlaid by user settings"
     else if !bad && freshApplies noFill && !freshOk noFill o then "fail:fresh:config not created per product or shared between products"
     else if !bad && onceApplies noFill && !onceOk noFill o then "fail:once:factory constructor not configured exactly once"
     else if !structOkBy resFill noFill o then "fail:counts:user code invoked in another number or order than the constructor shape prescribes"
@@ -801,8 +875,10 @@ def handlePlain (input impl : String) : String × String :=
     let hook := getS (parseKV input) "via" == "hook"
     if (lookup (parseKV input) "nm").isSome || (lookup (parseKV input) "pt").isSome then handleMiss inp (parseKV input) impl else
     if hook && !inp.w.hasFill then ("-", "fail:driver:via=hook needs fill=1") else
+    let xf := Over.shown (parseKV input)
+    if !xf.isEmpty && (!hook || inp.sh.cfg == .none) then ("-", "fail:driver:ext=1 needs via=hook and a constructor with a config") else
     let m := showObs inp.sh (if hook then (run inp).map fun o => { eraseFills o with steps := (renumFillErrs 0 (eraseFills o).steps).2 }
-                             else run inp)
+                             else run inp) xf
     -- an operation that hands out neither a component nor an error (a nil component with a nil error, printed
     -- `nil` by the harness) has no place in `Res`: that is an error that did not reach the caller
     if (splitList (getS (parseKV impl) "steps") ";").any (fun st => st.endsWith ">nil") then
@@ -821,7 +897,7 @@ def handlePlain (input impl : String) : String × String :=
             | _ => s }
         else obs
       let rule := ruleOf (parseKV input)
-      (m, if hook then judgeHook inp obs (getS (parseKV input) "bad" == "1" || !ruleHolds rule inp) false rule
+      (m, if hook then judgeHook inp obs (getS (parseKV input) "bad" == "1" || !ruleHolds rule inp) false rule (fields ++ xf)
           else judge inp obs fields)
 
 /-! ### `conc=1`: several registrations of ONE registry, their creations running concurrently (one goroutine each).
@@ -843,10 +919,157 @@ def handleConc (input impl : String) : String × String :=
     else (m, r.2)
   | none => (m, "ok")
 
+/-! ### `via=par` (round 4): ONE registration, creations through the hooks from several goroutines at the same time,
+every goroutine with its own settings.  The observation is independent of the schedule (results without serial numbers
+and identities per goroutine, totals for the case).  The model: every goroutine's creation is a run of its own — at
+step granularity the real execution is a session on one registration (any interleaving of creations and factory calls),
+and `C18_session` gives every step of a session the clauses of the single-creation Spec w.r.t. the settings of ITS
+creation, pairwise distinct configurations and undisturbed final views; `C18_par` is that statement for this driver. -/
+namespace Par
+
+def tokOf (xf : List Nat) : Res → String
+  | .made => "made"
+  | .ok p => "ok." ++ "/".intercalate (([1, 2, 3] ++ xf).map fun f => toString (p.seen.get f))
+  | .err (.fill _) => "err.fill"
+  | .err (.ctor _) => "err.ctor"
+  | .err (.fact _) => "err.fact"
+  | .panic (.fill _) => "panic.fill"
+  | .panic (.ctor _) => "panic.ctor"
+  | .panic (.fact _) => "panic.fact"
+
+/-- run-length encoding of equal neighbours: `tok*n` -/
+def rle : List String → List String
+  | [] => []
+  | t :: ts =>
+    let same := ts.takeWhile (· == t)
+    let n := same.length + 1
+    (if n > 1 then s!"{t}*{n}" else t) :: rle (ts.drop same.length)
+termination_by l => l.length
+decreasing_by simp_wf; omega
+
+def unrle (s : String) : List String :=
+  (splitList s).flatMap fun t =>
+    match t.splitOn "*" with
+    | [a, n] => List.replicate (n.toNat?.getD 1) a
+    | _ => [t]
+
+structure Totals where
+  prods : Nat
+  cells : Nat
+  own : Nat
+  d : Nat
+  c : Nat
+  r : Nat
+deriving BEq
+
+def totalsOf (o : Obs) : Totals :=
+  let evs := o.steps.flatMap (·.evs)
+  { prods := (products o.steps).length
+    cells := ((products o.steps).filterMap (·.cell)).eraseDups.length
+    own := (o.views.filter fun v => (v.1 : Int) == v.2).length
+    d := evs.countP isDflt, c := evs.countP isCtor, r := evs.countP isFact }
+
+def Totals.add (a b : Totals) : Totals := ⟨a.prods + b.prods, a.cells + b.cells, a.own + b.own, a.d + b.d, a.c + b.c, a.r + b.r⟩
+
+def chunks (m : Nat) : Nat → List String → List (List String)
+  | 0, _ => []
+  | g + 1, l => l.take m :: chunks m g (l.drop m)
+
+def handlePar (input impl : String) : String × String :=
+  let kv := parseKV input
+  let xf := Over.shown kv
+  let mode := getS kv "mode"
+  let sets := (getS kv "us").splitOn "|"
+  match getN? kv "g", getN? kv "m" with
+  | some g, some m =>
+    let rule := ruleOf kv
+    -- the input of goroutine j's creation: its own settings, fault-free user code, the validating decoder as fillConf
+    let inputOf (u : String) (k : Nat) : Option Input :=
+      let f := u.splitOn "^"
+      let abc := f.headD "_/_/_"
+      let extra := if Over.isExt kv then s!" um={f.getD 1 "_"} ul={f.getD 2 "_"} ur={f.getD 3 "_"} up={f.getD 4 "_"}" else ""
+      let drop (k : String) : Bool := k == "us" || k == "g" || k == "m" || k == "mode"
+      let base := " ".intercalate ((kv.filter fun e => !drop e.1).map fun e => s!"{e.1}={e.2}")
+      parseInput (s!"{base} u={abc}{extra} fill=1 k={k} ff= cf= rf=")
+    let inputs : Option (List Input) :=
+      if mode == "one" then (inputOf (sets.headD "_/_/_") (g * m)).map ([·])
+      else (sets.take g).mapM fun u => inputOf u m
+    (match inputs with
+     | none => ("-", "fail:driver:unparsable via=par input")
+     | some inps =>
+       if sets.length < g || g == 0 then ("-", "fail:driver:via=par needs one settings entry per goroutine") else
+       if inps.any (fun i => !registerOk i.sh) then ("-", "fail:driver:via=par with a registration Register refuses") else
+       if inps.any (fun i => i.sh.dflt == .shared) then
+         ("-", "skip:one shared default config decoded by several goroutines at once (the plugin author's sharing)") else
+       if inps.any (fun i => (mode == "new") != (i.form == .component)) then ("-", "fail:driver:mode=new goes with form=c, the others with a factory form") else
+       let obs := inps.filterMap run
+       let toks (o : Obs) : List String := o.steps.map fun s => tokOf xf s.res
+       let perG : List (List String) :=
+         if mode == "one" then
+           match obs.head? with
+           | some o =>
+             (match toks o with
+              | t :: rest =>
+                if t == "made" then (chunks m g rest).mapIdx fun i c => if i == 0 then t :: c else c
+                else [t] :: List.replicate (g - 1) []
+              | [] => List.replicate g [])
+           | none => []
+         else obs.map toks
+       let tot := (obs.map totalsOf).foldl Totals.add ⟨0, 0, 0, 0, 0, 0⟩
+       let ms := s!"par res={";".intercalate (perG.map fun l => ",".intercalate (rle l))} prods={tot.prods} cells={tot.cells} own={tot.own} d={tot.d} c={tot.c} r={tot.r}"
+       if impl.startsWith "RACE " || impl == "RACE" then
+         (ms, s!"fail:race:a data race between creations that run concurrently on one registration through the config hooks: {(impl.drop 5).toString}") else
+       if impl == "regpanic" then (ms, "fail:regpanic:valid registration panicked") else
+       let ikv := parseKV impl
+       let iG := ((getS ikv "res").splitOn ";").map unrle
+       -- the Spec on what the goroutines got
+       let inpOfG (j : Nat) : Option Input := if mode == "one" then inps.head? else inps[j]?
+       let bad : Option String := (List.range iG.length).findSome? fun j =>
+         match inpOfG j, iG[j]? with
+         | some inp, some ts =>
+           let exp := expected inp.sh inp.w
+           let valid := ruleHolds rule inp
+           (ts.zipIdx).findSome? fun (t, ti) =>
+             -- the creation of a factory has an error result whatever the factory type is
+             let creation := ti == 0 && (mode == "fac" || (mode == "one" && j == 0))
+             if t == "made" then none
+             else if t.startsWith "ok." then
+               let vals := ((t.drop 3).toString.splitOn "/").map String.toInt?
+               let want := ([1, 2, 3] ++ xf).map fun f => if inp.sh.cfg == CfgKind.none then some (0 : Int) else some (exp.get f)
+               if !valid then some "fail:errors:a component was built from a configuration that fails validation (the config error did not reach the caller)"
+               else if vals != want then
+                 some s!"fail:config:goroutine {j} got a component that was not built from the defaults overlaid by ITS settings"
+               else none
+             else if t == "err.fill" || t == "panic.fill" then
+               if valid then some "fail:errors:a valid configuration was refused with a config error"
+               else if (t == "panic.fill") != (inp.form == .facNoErr && !creation) then some "fail:errors:error not delivered as the error result / panic rule"
+               else none
+             else some s!"fail:errors:a concurrent creation ended with {t.take 60}"
+         | _, _ => some "fail:crash:number of goroutines"
+       match bad with
+       | some v => (ms, v)
+       | none =>
+         if iG.map (·.length) != perG.map (·.length) then (ms, "fail:errors:another number of results than operations")
+         else
+         let it : Totals := ⟨(getN? ikv "prods").getD 0, (getN? ikv "cells").getD 0, (getN? ikv "own").getD 0,
+                            (getN? ikv "d").getD 0, (getN? ikv "c").getD 0, (getN? ikv "r").getD 0⟩
+         let factory := inps.any (·.sh.factory)
+         if it.prods != tot.prods then (ms, "fail:errors:another number of components than successful operations")
+         else if it.cells != tot.cells || it.own != tot.own then
+           (ms, if factory && mode != "new" then "fail:once:the products of a factory constructor's factory do not share exactly the configuration of their creation"
+                else "fail:fresh:products built concurrently share a configuration object / a product does not read its own serial number")
+         else if it.d != tot.d || it.c != tot.c || it.r != tot.r then
+           (ms, "fail:counts:user code invoked another number of times than the constructor shape prescribes")
+         else (ms, "ok"))
+  | _, _ => ("-", "fail:driver:unparsable via=par input")
+
+end Par
+
 def handle : Handler := fun input impl =>
   if impl == "RACE-SKIP" then ("-", "skip:the -race driver runs the concurrent cases only") else
   if getS (parseKV input) "sess" == "1" then Sess.handleSess input impl else
   if getS (parseKV input) "conc" == "1" then handleConc input impl else
+  if getS (parseKV input) "via" == "par" then Par.handlePar input impl else
   if getS (parseKV input) "via" == "hookconf" then HookConf.handleHookConf input impl else
   if getS (parseKV input) "via" == "nest" then Nest.handleNest input impl else
   if getS (parseKV input) "hist" == "1" then handleHist input impl else
